@@ -694,7 +694,6 @@ func c18Registry(c *Ctx) {
 	}
 }
 
-
 // c18Hooks decides O18.6 and O18.7 on core/plugin/pluginconfig.
 func c18Hooks(c *Ctx) {
 	P := c.P
